@@ -1333,6 +1333,8 @@ class Engine:
         # enumerate(xs)
         if isinstance(it, ast.Call) and isinstance(it.func, ast.Name) and it.func.id == "enumerate":
             xs = self.as_seq(self.expr(it.args[0], st), st)
+            if len(it.args) > 1 or it.keywords:
+                raise Unsupported("enumerate(..., start) in a comprehension / quantifier", it)
             assert isinstance(gen.target, ast.Tuple)
             iname, xname = gen.target.elts[0].id, gen.target.elts[1].id  # type: ignore[attr-defined]
             bv = z3.Int(f"{iname}${k}")
